@@ -42,6 +42,11 @@ type c16Case struct {
 	// document before the page is built (documents of a few hundred bytes up to 200 kB: large
 	// certificate chains, caller extensions)
 	Pad int `json:"document_padding_bytes,omitempty"`
+	// Rerender: the page is first built from the document as it is, then the caller changes the
+	// document in place (same root ID: 1 an element added, 2 the element replaced by a signed
+	// copy of itself where a signing key exists) and builds the page again; the second page is
+	// the one judged and must carry the document as it is then
+	Rerender int `json:"changed_in_place_and_rendered_again,omitempty"`
 }
 
 // c16Pads puts the serialised document on both sides of every power of two from 1 KiB to
@@ -161,6 +166,35 @@ func c16Build(sp *saml2.SAMLServiceProvider, c c16Case) (out []byte, docBytes []
 			own := etree.NewDocument()
 			own.SetRoot(doc.Root().Copy())
 			doc = own
+		}
+		if c.Rerender > 0 {
+			switch b {
+			case "BuildAuthBodyPostFromDocument":
+				sp.BuildAuthBodyPostFromDocument(relay, doc)
+			case "BuildLogoutBodyPostFromDocument":
+				sp.BuildLogoutBodyPostFromDocument(relay, doc)
+			case "BuildLogoutResponseBodyPostFromDocument":
+				sp.BuildLogoutResponseBodyPostFromDocument(relay, doc)
+			}
+			if c.Rerender == 1 {
+				doc.Root().CreateElement("added-later").SetText("x")
+			} else {
+				var signed *etree.Element
+				var serr error
+				switch b {
+				case "BuildAuthBodyPostFromDocument":
+					signed, serr = sp.SignAuthnRequest(doc.Root())
+				case "BuildLogoutBodyPostFromDocument":
+					signed, serr = sp.SignLogoutRequest(doc.Root())
+				default:
+					signed, serr = sp.SignLogoutResponse(doc.Root())
+				}
+				if serr == nil && signed != nil {
+					doc.SetRoot(signed)
+				} else {
+					doc.Root().CreateAttr("Consent", "urn:oasis:names:tc:SAML:2.0:consent:unspecified")
+				}
+			}
 		}
 		docBytes, _ = doc.WriteToBytes()
 		defer func() {
@@ -396,7 +430,7 @@ var c16Baselines sync.Map
 
 func c16BaselineSkeleton(c c16Case) (string, error) {
 	bc := c
-	bc.Pad = 0
+	bc.Pad, bc.Rerender = 0, 0
 	if c.relay() != "" {
 		bc.Relay, bc.Frags = 1, nil // "plain"
 	}
@@ -431,7 +465,7 @@ func c16Replay(raw json.RawMessage) ([]string, string) {
 }
 
 func c16Run(r *mc.Run) {
-	r.Rule = "full product relay state(33: quotes, angle brackets, script and attribute-injection payloads, ampersands, character references, newline, U+2028, backtick, backslash, template syntax, plus, comment opener, NUL, lengths 80/81/82+/2090/4800 bytes with multi-byte characters across byte 80) x builder(4) x document(4: signed, unsigned, non-ASCII, assembled by the caller with default write settings; the document must be unchanged afterwards) x endpoint(2: plain, with & query) x document built under this or under the other endpoint x SignAuthnRequests(2, BuildAuthBodyPost), plus documents padded to 20 sizes from 1 kB to 200 kB (both sides of every power of two up to 128 KiB, all residues mod 3) x builder(3) x document(4), plus relay states assembled from every sequence of 2 (quick) / 2-3 (thorough) of 28 injection fragments x builder(4); oracle = a strict HTML tokenizer (anything needing browser error recovery is rejected) and a reading of the page as a browser would: exactly one form, action = the endpoint, method POST, exactly one message field inside it = base64 of exactly the document, a RelayState field iff non-empty decoding to exactly the value, no binding field anywhere else, a script that submits; and the token skeleton (every tag, attribute, attribute value, text and script except those three values) equal to the skeleton of the page the same builder makes for a plain relay state, so that nothing else can depend on the relay state or the document. non-trivial = a page was produced and tokenized; distinct = distinct case"
+	r.Rule = "full product relay state(33: quotes, angle brackets, script and attribute-injection payloads, ampersands, character references, newline, U+2028, backtick, backslash, template syntax, plus, comment opener, NUL, lengths 80/81/82+/2090/4800 bytes with multi-byte characters across byte 80) x builder(4) x document(4: signed, unsigned, non-ASCII, assembled by the caller with default write settings; the document must be unchanged afterwards) x endpoint(2: plain, with & query) x document built under this or under the other endpoint x SignAuthnRequests(2, BuildAuthBodyPost), plus documents changed in place by the caller after a first page was made from them (an element added; the root replaced by its signed copy, same ID) and rendered again x builder(3) x document(4) x endpoint(2), plus documents padded to 20 sizes from 1 kB to 200 kB (both sides of every power of two up to 128 KiB, all residues mod 3) x builder(3) x document(4), plus relay states assembled from every sequence of 2 (quick) / 2-3 (thorough) of 28 injection fragments x builder(4); oracle = a strict HTML tokenizer (anything needing browser error recovery is rejected) and a reading of the page as a browser would: exactly one form, action = the endpoint, method POST, exactly one message field inside it = base64 of exactly the document, a RelayState field iff non-empty decoding to exactly the value, no binding field anywhere else, a script that submits; and the token skeleton (every tag, attribute, attribute value, text and script except those three values) equal to the skeleton of the page the same builder makes for a plain relay state, so that nothing else can depend on the relay state or the document. non-trivial = a page was produced and tokenized; distinct = distinct case"
 	var cases []c16Case
 	mc.Enumerate(-1, r.Expired, func(ch *mc.Chooser) {
 		c := c16Case{}
@@ -457,6 +491,15 @@ func c16Run(r *mc.Run) {
 		}
 	}
 	r.Set("large_document_cases", nPad)
+	for b := 1; b < len(c16Builders); b++ {
+		for rr := 1; rr <= 2; rr++ {
+			for d := range c16Docs {
+				for e := range c16Endpoints {
+					cases = append(cases, c16Case{Builder: b, Relay: 1, Doc: d, Endpoint: e, Rerender: rr})
+				}
+			}
+		}
+	}
 	// relay states assembled from fragments: every sequence of <= 2 (quick) / <= 3 (thorough)
 	maxF := 2
 	if r.Thorough() {
